@@ -379,7 +379,7 @@ PROPS_EXTRA['C17'] = {
          '(quick: U+0000..U+04FF, every constant of the encoder bodies and gated lookups +-2, every 17th BMP code point, every 4099th astral one, '
          '1 300 seeded ideographs / hangul / others) through every encoder (40) from UTF-8 and from UTF-16 (ISO-2022-JP also after U+00A5 and '
          'U+3042; four lone surrogates per encoder); (2) every string of length 0, 1 and 2 over all 256 bytes (thorough) / over a 64-byte class '
-         'alphabet for length 2 (quick) through every decoder, both sinks; (3) 324 fixed buffers of 56..136 bytes (four filler widths, six defect '
+         'alphabet for length 2 (quick) through every decoder, both sinks; (2b) stride regime, independent of the seed: every byte value at positions around the 16-byte stride boundaries of a 40-byte buffer of ASCII letters / ASCII punctuation through every decoder into both sinks, and every UTF-16 unit of 0..0x17F, 0xF77E..0xF801 and nine boundary units at stride positions of a 24-unit ASCII buffer through every encoder; (3) 324 fixed buffers of 56..136 bytes (four filler widths, six defect '
          'kinds) through utf8_valid_up_to with the scalar-validation switch off and on; (4) the generators of C14, C15, C16, C02, C04 with the '
          'C17 seed. distinct = distinct operation lines summed over the four configurations; trivial = empty input',
  'trivial_re': '^(valid(16)? \\S+( \\S+)? \\S+ \\.|mem \\S+ \\d+ \\.|cls\\S* \\S+ \\.|dec \\S+ \\S+ \\S+ \\S+ \\. \\S+) => ',
